@@ -1,0 +1,16 @@
+//go:build verif
+
+// Verification hooks (build tag verif) for property C07: the deprecated string packing (version 1), which readers still
+// accept from files written by older versions, and the version constants. No behaviour.
+package encoding
+
+// VerifPackStringV1 packs string bytes and their start offsets in the version-1 layout.
+func VerifPackStringV1(in []byte, offset []uint32) []byte {
+	ctx := NewCoderContext()
+	return append([]byte{}, packStringV1(in, offset, ctx)...)
+}
+
+// VerifStringVersions returns the version words of the string packing.
+func VerifStringVersions() map[string]uint64 {
+	return map[string]uint64{"str_v1": uint64(StringEncodingV1), "str_end": uint64(StringEncodingEnd)}
+}
